@@ -81,9 +81,7 @@ def ob_apply(cx):
             step("rename")
             if a not in fs:
                 raise OSError(_errno.ENOENT, "no such file")
-            if b in fs:
-                raise OSError(_errno.EEXIST, "file exists")
-            fs[b] = fs.pop(a)
+            fs[b] = fs.pop(a)       # POSIX: renaming a file over an existing file replaces it silently
     T.os = OS
 
     def delete_any(p):
@@ -142,6 +140,20 @@ def ob_apply(cx):
         def final_file_id(self, trans_id):
             return b"an-id"
 
+        def tree_kind(self, trans_id):
+            for e in entries:
+                if e["tid"] == trans_id:
+                    return "file" if (e["old"] is not None and e["on_disk"]) else None
+            return "directory" if trans_id == "new-root" else None
+
+        def final_kind(self, trans_id):
+            for e in entries:
+                if e["tid"] == trans_id:
+                    if e["new"] is None:
+                        return None
+                    return "file" if (e["kind"] != "rename" or e["on_disk"]) else None
+            return "directory" if trans_id == "new-root" else None
+
         def finalize(self):
             state["finalized"] = True
     tt = Stub()
@@ -153,6 +165,8 @@ def ob_apply(cx):
     raised = None
     try:
         tt.apply(no_conflicts=True, precomputed_delta=[], _mover=Mover())
+    except (AttributeError, TypeError, NameError):
+        raise                       # not a file-system failure: a programming error (or a gap in the stub) must surface
     except Exception as exc:
         raised = exc
     inj = state["injected"]
